@@ -12,7 +12,8 @@ TU_NAME = {0: 'limp4', 1: 'open', 2: 'one', 3: 'limp'}
 TUS = (0, 1, 2, 3)
 GEN = ['gen_policy_base.json', 'gen_policy_open2n2.json', 'gen_policy_open2n2_m1.json', 'gen_policy_open8.json',
        'gen_index_base.json', 'gen_index_open2n2.json', 'gen_index_open8.json', 'gen_buckets.json', 'gen_hashset_grow.json',
-       'gen_c13_open2n2.json', 'gen_c13_open2n2_ops.json', 'gen_c13_openn1.json', 'gen_c13_openn1_ops.json']
+       'gen_c13_open2n2.json', 'gen_c13_open2n2_ops.json', 'gen_c13_openn1.json', 'gen_c13_openn1_ops.json',
+       'gen_c12_base.json', 'gen_c12_limp4.json', 'gen_c12_limp4_add.json', 'gen_c12_one.json']
 MAP_KINDS = ('L4', 'L1', 'O3', 'P3', 'N1')
 
 
@@ -402,6 +403,27 @@ def leaf_cases(ctx, scale):
             elif r.below(4) == 0:
                 toks.append('C:0'); cnt = 0
         out.append('leaf bops %s %d %d %s' % (kind, m, L, ' '.join(toks)))
+    # the LimP4 / One bucket operations (translations ported from C12): metadata bytes, count, IsFull, WasFull, memory-pool index
+    for i in range(200 * scale):
+        cnt = 0; toks = []
+        for _ in range(r.range(1, 30)):
+            c = r.below(10)
+            if c < 5 and cnt < 4:
+                hc = r.choice([r.next(), r.below(1 << 20), (r.below(256) << 56) | r.below(1 << 16), 2 ** 64 - 1, 0])
+                toks.append('A:%d:%d:%d' % (hc, r.range(0, 63), r.choice([0, 1, r.below(300), r.below(1 << 20)]))); cnt += 1
+            elif c < 9 and cnt > 0:
+                toks.append('R:%d' % r.below(cnt)); cnt -= 1
+            elif r.below(3) == 0:
+                toks.append('C:0'); cnt = 0
+        out.append('leaf p4ops ' + ' '.join(toks))
+    for i in range(60 * scale):
+        full = False; toks = []
+        for _ in range(r.range(1, 12)):
+            c = r.below(10)
+            if c < 5 and not full: toks.append('A:%d' % r.choice([r.next(), 0, 1, 2 ** 63, 2 ** 64 - 1])); full = True
+            elif c < 9 and full: toks.append('R:0'); full = False
+            elif r.below(2) == 0: toks.append('C:0'); full = False
+        out.append('leaf oneops ' + ' '.join(toks))
     # the generated size loop of Reserve (+ the f76c2d4 length_error bound) against the real Reserve on a bucket-less set
     for kind in ('L4', 'L1', 'O3', 'O8'):
         for nl0 in (0, 1, 2, 4, 7):
